@@ -4,6 +4,7 @@
 use serde_json::{json, Value};
 
 mod c01;
+mod cfg;
 mod c06;
 mod c07;
 mod c02;
@@ -63,6 +64,8 @@ fn run(name: &str, args: &Value) -> Value {
         "c10_graceful_stop" => c10::graceful_stop(args),
         "c11_limits" => c11::limits(args),
         "c12_ws_batch" => c12::ws_batch(args),
+        "cfg_journey" => cfg::journey(args),
+        "c12_two_batches" => c12::two_batches(args),
         "c12_ws_batch_order" => c12::ws_batch_order(args),
         "c12_http_batch" => c12::http_batch(args),
         "c02_batches" => c02::batches(args),
